@@ -950,3 +950,12 @@ M("C15-extract-args-steps-past-end", "C15", "src/cppparser/cppManifest.cxx",
 M("C15-benign-cursor-guard-form", "C15", "src/cppparser/cppManifest.cxx",
   "    if (p < args.size()) {\n      // Skip the closing parenthesis (it is missing if the parameter list\n      // runs to the end of the line).\n      p++;\n    }\n", "    if (args.size() > p) {\n      ++p;\n    }\n",
   benign=True)
+
+M("C15-include-derefs-null-infile", "C15", "src/cppparser/cppPreprocessor.cxx",
+  "      if (_infile == nullptr || _infile->_parent == nullptr) {\n        // If we're currently processing a top-level file, record the include\n        // directive.  We don't need to record includes from included files.\n        _angle_includes.insert(filename);",
+  "      if (_infile->_parent == nullptr) {\n        // If we're currently processing a top-level file, record the include\n        // directive.  We don't need to record includes from included files.\n        _angle_includes.insert(filename);",
+  expect="R15.10|CPPPreprocessor::handle_include_directive")
+M("C15-benign-include-null-infile-nested", "C15", "src/cppparser/cppPreprocessor.cxx",
+  "      if (_infile == nullptr || _infile->_parent == nullptr) {\n        // If we're currently processing a top-level file, record the include\n        // directive.  We don't need to record includes from included files.\n        _angle_includes.insert(filename);",
+  "      if (!_infile || !_infile->_parent) {\n        // If we're currently processing a top-level file, record the include\n        // directive.  We don't need to record includes from included files.\n        _angle_includes.insert(filename);",
+  benign=True)
